@@ -37,10 +37,12 @@ META = {
         "dependency graphs on 3 named complex types (6 edge booleans, plus a union-typed attribute and nested sequence/choice groups), rendered as an XSD text and pushed through the real pipeline",
         "set iteration: every `set(...)` built in 12 codegen modules iterates in an order chosen by 4 symbolic picks (each 0..2, reused cyclically); id(): distinct integers ordered by the same picks",
         "reproducible_multi: sets of three schemas in three namespaces / files (module paths differing in two parts) with same-named / case-colliding types, so that import aliases are computed; 4 name triples x 3 structure bits x the same pick vectors",
+        "transformer_history: every history of 3 calls of the real ResourceTransformer.process (programmatic entry point, real files, real on-disk cache in a private temp dir) over 3 schema files x cache on/off; "
+        "every call must produce what a fresh uncached run on the same file produces",
         "structure styles as partitions (quick: filenames, clusters, single-package; thorough: all five)",
         "selector driven: every (graph, pick vector) in the bound is executed; each path runs concretely",
     ],
-    "outside": ["byte-identical files (no renderer: jinja2 absent)", "repeated-run, CLI vs API vs config-file equivalence (click absent)", "set literals / comprehensions and C-level consumers of sets (not intercepted)",
+    "outside": ["byte-identical files (no renderer: jinja2 absent)", "CLI vs API vs config-file equivalence (click absent)", "a cached source whose CONTENT changes between runs (staleness is what the cache option asks for)", "set literals / comprehensions and C-level consumers of sets (not intercepted)",
                 "more than 3 classes, more than 4 independent picks"],
     "stubs": ["absent-package shims (click, jinja2, toposort)", "PermSet injected as `set` into module globals; permuted id()"],
     "assumptions": ["C-level consumers of a set subclass bypass __iter__ only where order cannot matter (update, in, len)"],
@@ -253,6 +255,92 @@ def explain_multi(names, choice, local, cross, p0, p1, p2, p3):
     return {"names": MULTI_NAMES[names], "style": STYLES[style].value, "first_differences": repr(diff)[:1500]}
 
 
+# ---------------------------------------------------------------------------------------------------------------------
+# repeated runs through the programmatic entry point (ResourceTransformer.process) with and without its on-disk cache
+_TR = {}
+TR_OPS = [("a/schema.xsd", False), ("a/schema.xsd", True), ("b/schema.xsd", False), ("b/schema.xsd", True), ("a/other.xsd", False), ("a/other.xsd", True)]
+
+
+def _tr_setup():
+    """Three schema files (two of them share their file name in different directories) in a private temp dir that also holds the cache files."""
+    if _TR:
+        return _TR
+    import atexit
+    import pathlib
+    import shutil
+    import tempfile
+
+    from xsdata.codegen.writer import CodeWriter
+    from xsdata.formats.mixins import AbstractGenerator
+
+    root = pathlib.Path(tempfile.mkdtemp(prefix="xsv_c12_"))
+    atexit.register(shutil.rmtree, str(root), True)
+    (root / "cache").mkdir()
+    tempfile.tempdir = str(root / "cache")  # ResourceTransformer.get_cache_file uses tempfile.gettempdir()
+    body = {
+        "a/schema.xsd": '<xs:element name="Invoice"><xs:complexType><xs:sequence><xs:element name="number" type="xs:string"/></xs:sequence></xs:complexType></xs:element>',
+        "b/schema.xsd": '<xs:element name="Invoice"><xs:complexType><xs:sequence><xs:element name="number" type="xs:int"/><xs:element name="currency" type="xs:string"/></xs:sequence></xs:complexType></xs:element>'
+                        '<xs:element name="CreditNote"><xs:complexType><xs:attribute name="reason" type="xs:string"/></xs:complexType></xs:element>',
+        "a/other.xsd": '<xs:element name="Receipt"><xs:complexType><xs:sequence><xs:element name="total" type="xs:decimal"/></xs:sequence></xs:complexType></xs:element>',
+    }
+    for rel, inner in body.items():
+        f = root / rel
+        f.parent.mkdir(exist_ok=True)
+        f.write_text(f'<xs:schema xmlns:xs="http://www.w3.org/2001/XMLSchema" targetNamespace="urn:demo" elementFormDefault="qualified">{inner}</xs:schema>')
+    captured = []
+
+    class Capture(AbstractGenerator):
+        def render(self, classes):
+            captured.append([(c.qname, c.target_module, [(a.name, [t.qname for t in a.types], a.tag) for a in c.attrs]) for c in classes])
+            return iter(())
+
+    CodeWriter.register_generator("xsv-capture", Capture)
+    _TR.update(root=root, captured=captured)
+    return _TR
+
+
+def _tr_run(rel, cache):
+    from xsdata.codegen.transformer import ResourceTransformer
+
+    st = _tr_setup()
+    cfg = GeneratorConfig()
+    cfg.output.format.value = "xsv-capture"
+    cfg.output.structure_style = STYLES[PART.get("style", 0)]
+    del st["captured"][:]
+    ResourceTransformer(config=cfg).process([(st["root"] / rel).as_uri()], cache=cache)
+    return [sorted(x, key=repr) for x in st["captured"]]
+
+
+def _tr_history(ops):
+    st = _tr_setup()
+    for f in (st["root"] / "cache").glob("*"):
+        f.unlink()
+    ref = st.setdefault("ref", {})
+    out = {"ok": True, "history": [TR_OPS[o] for o in ops]}
+    for n, o in enumerate(ops):
+        rel, cache = TR_OPS[o]
+        got = _tr_run(rel, cache)
+        if rel not in ref:
+            ref[rel] = _tr_run(rel, False)  # an uncached run neither reads nor writes the cache directory
+        if got != ref[rel]:
+            out["ok"] = False
+            out["problem"] = f"step {n} ({rel}, cache={cache}): {repr(got)[:300]} instead of {repr(ref[rel])[:300]}"
+            break
+    return out
+
+
+def transformer_history(o0: int, o1: int, o2: int) -> bool:
+    """
+    pre: 0 <= o0 < len(TR_OPS)
+    pre: 0 <= o1 < len(TR_OPS)
+    pre: 0 <= o2 < len(TR_OPS)
+    post: _
+    """
+    ops = [concretize(o, len(TR_OPS)) for o in (o0, o1, o2)]
+    with untraced():
+        return result(_tr_history(ops)["ok"])
+
+
 def _same(bits, picks):
     style = PART.get("style", 0)
     base = _generate(bits, style, [0, 0, 0, 0])
@@ -270,7 +358,7 @@ def explain(e0, e1, e2, e3, e4, e5, p0, p1, p2, p3):
 
 
 PRE = {}
-EXPLAIN = {"reproducible": explain, "reproducible_multi": explain_multi}
+EXPLAIN = {"reproducible": explain, "reproducible_multi": explain_multi, "transformer_history": lambda o0, o1, o2: _tr_history([o0, o1, o2])}
 
 
 def plan(tier):
@@ -285,4 +373,6 @@ def plan(tier):
         for compound in (0, 1):
             for names in range(len(MULTI_NAMES)):
                 jobs.append(Job("reproducible_multi", {"style": style, "compound": compound, "names": names}, 900 if tier == "quick" else 3000, 60, note="selector driven, three namespaces / files"))
+    for style in ([0] if tier == "quick" else [0, 1, 3]):
+        jobs.append(Job("transformer_history", {"style": style}, 600, 60, note="selector driven: histories of 3 ResourceTransformer.process calls with / without the on-disk cache"))
     return jobs
